@@ -32,7 +32,8 @@ def gen_case(r):
     script = []
     # mostly sensible: initialise some roots, then random accesses; sometimes garbage
     for i in range(len(env)):
-        if r.random() < 0.8:
+        # a `%ret` variable is always assigned before it is read (the model keeps it as a leaf)
+        if ret[i] or r.random() < 0.8:
             script.append(["set", [i]])
     for _ in range(r.randint(1, 8)):
         p = r.choice(pids)
